@@ -211,7 +211,8 @@ int evaluate_module(void *data, const char *key, void *value) {
 
     /* Check if module should be started */
     if (m_mod_is(mod, M_MOD_IDLE)) {
-        if (optional_hook(mod, MOD_EVAL) == 0) {
+        /* on_eval() may have started the module itself */
+        if (optional_hook(mod, MOD_EVAL) == 0 && m_mod_is(mod, M_MOD_IDLE)) {
             start(mod, true);
         }
     }
